@@ -973,6 +973,14 @@ def fam_multi_input(rng):
     sc, zp = _rs(rng, 0.01, 0.1), _zp(rng, dt)
     ins = [net.input([1, h, w, c], dt, sc, zp, name="input%d" % i) for i in range(k)]
     level = ins
+    if rng.random() < 0.7:
+        # both operands of a pair are read by two operators, so neither can be overwritten in place and their live ranges
+        # tie exactly (same start, same end, same size)
+        level = []
+        for i in range(0, k - 1, 2):
+            u = elementwise(net, rng, "ADD", ins[i], ins[i + 1])
+            v = elementwise(net, rng, rng.choice(["SUB", "MUL"]), ins[i], ins[i + 1])
+            level.append(elementwise(net, rng, "ADD", u, v))
     while len(level) > 1:
         nxt = []
         for i in range(0, len(level) - 1, 2):
